@@ -820,6 +820,26 @@ pub(crate) fn check_if_response_is_matched(
             }
         }
     } else {
+        // The last n headers should include all blocks since the difficulty boundary.
+        {
+            let first_last_n_header = &headers[reorg_count + sampled_count];
+            let difficulty_boundary: U256 = prev_request.difficulty_boundary().unpack();
+            let total_difficulty_before_last_n: U256 = first_last_n_header
+                .parent_chain_root()
+                .total_difficulty()
+                .unpack();
+            if first_last_n_header.header().number() > start_number
+                && total_difficulty_before_last_n >= difficulty_boundary
+            {
+                let errmsg = format!(
+                    "the last n headers start at block#{} but its parent block has already \
+                    reached the difficulty boundary",
+                    first_last_n_header.header().number()
+                );
+                return Err(StatusCode::InvalidSamples.with_context(errmsg));
+            }
+        }
+
         // Check if the sampled headers are subject to requested difficulties distribution.
         let first_last_n_total_difficulty: U256 =
             headers[reorg_count + sampled_count].total_difficulty();
